@@ -76,6 +76,8 @@ def main():
             if m: conf['demo_on_unchanged']='pass' if m.group(1)=='0' else 'FAIL'; conf['demo_on_changed']='fail' if m.group(2)!='0' else 'PASS'
             m=re.search(r'suite: (.*)',txt)
             if m: conf['pinned_suite_with_change']=m.group(1)
+            rr=re.findall(r'rerun-alone: (.*)',txt)
+            if rr: conf['failed_stable_tests_rerun_alone_with_change']=rr
         extra=f'/tmp/ev/confirm_{pid}{v}.extra'
         if os.path.exists(extra): conf['notes']=open(extra).read().strip()
         meta={'name':name,'property':prop,'change':what,'needs_to_manifest':needs,'demonstration':demos,
